@@ -409,6 +409,9 @@ def check_field_independence(ck, rule, prog, body, owner_rx, label):
             # a constant is stored (a flag): the tested byte IS the field - one byte position only
             ok = len(gsyms) <= 1
             ck.ob(rule, "%s/field-guards/%s" % (label, fld), ok, "%s: `%s` is set under a test of %s" % (body.short, fld, sorted(gsyms.values()) or "no input byte"), where=body.where(st.line))
+            # ... and a flag that is stored under a test of its byte is stored as TRUE (the record is created with the flag clear)
+            if st.ops and st.ops[0].kind == "const" and (st.ops[0].const or {}).get("ty") == "bool" and guards:
+                ck.ob(rule, "%s/field-value/%s" % (label, fld), st.ops[0].const.get("val") == "true", "%s stores `%s = %s` under the test of its flag byte%s" % (body.short, fld, st.ops[0].const.get("val"), "" if st.ops[0].const.get("val") == "true" else ": the flag is never set, whatever the input says"), where=body.where(st.line))
         else:
             foreign = sorted(v for k, v in gsyms.items() if k not in own)
             ck.ob(rule, "%s/field-guards/%s" % (label, fld), not foreign,
@@ -1121,4 +1124,50 @@ def check_end_guards(ck, rule, label, prog, body, input_param=1):
         if t.callee.method == "is_empty" and t.args and params_of(R.pv.of_operand(body, t.args[0]), body.id) == {input_param}:
             n += 1
             ck.ob(rule, "%s/end-guard@is_empty" % label, True, "%s tests the remaining input with is_empty()" % body.short, where=body.where(t.line))
+    return n
+
+
+def check_byte_assembly(ck, rule, prog, body, label):
+    """every `from_be_bytes([..])` / `from_le_bytes([..])` whose array is put together from single bytes of the decoder's input takes CONSECUTIVE bytes
+    in ascending order (element i is the byte at base + i): a byte used twice, or one left out, decodes another number"""
+    R = Reader(prog, body)
+    n = 0
+    for bi, t in body.calls():
+        if t.callee.method not in ("from_be_bytes", "from_le_bytes") or len(t.args) != 1 or t.args[0].place is None:
+            continue
+        for kind2, pos, d in R.pv.defs(body).get(t.args[0].place.local, []):
+            if kind2 == "assign" and d.rv["k"] == "agg" and d.rv.get("agg") == "array" and len(d.rv["ops"]) > 1:
+                offs = [affine(R._index_expr(o, pos)) for o in d.rv["ops"]]
+                if any(o is None for o in offs):
+                    continue
+                n += 1
+                nz = lambda x: {k: v for k, v in x.items() if v != 0}
+                ok = all(nz(offs[i]) == nz(R._shift(offs[0], i)) for i in range(len(offs)))
+                ck.ob(rule, "%s/byte-assembly/%d" % (label, n), ok, "%s assembles a %d-byte number from the bytes at %s%s" % (body.short, len(offs), ", ".join(R.fmt(o) for o in offs), "" if ok else ": NOT consecutive ascending offsets (a byte is used twice or skipped)"), where=body.where(t.line))
+    return n
+
+
+def check_length_validation_direction(ck, rule, prog, body, label, input_param=1):
+    """an ordering test between the LENGTH of the decoder's input and a needed size that guards an error exit fails when the input is too SHORT
+    (`len < need`): a test that fails for `len > need` instead lets the short input through to the indexing behind it"""
+    from engines import compare_switches, relation_cases
+    pv = Prov(prog, inline=False)
+    n = 0
+    for c in compare_switches(body, pv):
+        if c["op"] not in ("Lt", "Le", "Gt", "Ge"):
+            continue
+        def is_len(op):
+            at = pv.of_operand(body, op)
+            return any(a[0] == "call" and re.search(r"::len$", a[1]) and a[3] == body.id for a in at) and params_of(at, body.id) == {input_param} and not any(a[0] == "op" for a in at)
+        ll, lr = is_len(c["l"]), is_len(c["r"])
+        if ll == lr:
+            continue
+        cases = relation_cases(c, swap=lr)  # len against need
+        fail = {k for k, tg in cases.items() if tg is not None and fails_from(body, tg)}
+        if not fail or fail == {"lt", "eq", "gt"}:
+            continue
+        n += 1
+        ok = "lt" in fail and "gt" not in fail
+        ck.ob(rule, "%s/length-test/%d" % (label, n), ok, "%s fails when the input length is %s the size it needs%s" % (body.short, "/".join(sorted(fail)), "" if ok else
+              ": the test points the wrong way - an input that is too SHORT passes and is indexed beyond its end, a longer one is refused"), where=body.where(c["line"]))
     return n
